@@ -790,3 +790,62 @@ def c05n(F, R):
             R.bad(key, f"the `{src}` search sets the flag under the wrong condition ({wrong}); it must be exactly `same register && offset == 0`: otherwise a moved copy (`addi`) counts as the saved value, or the saved value itself does not", loc(a))
         else:
             R.ok(key, detail=f"`{nm}` is set when `{src}` holds OriginalRegisterWithScalar(the written register, 0)", where=loc(a))
+
+
+@rule("C05", "C05.o.the-walk-is-not-abandoned-silently", floor=2)
+def c05o(F, R):
+    """a lint that gives up its walk over the graph (`break` out of the loop over the cfg nodes) says why before it leaves: the block that ends in the `break` pushes a diagnostic first. A bare `break` - the report deleted, the exit kept - stops the lint at the first offending node without a word, and with it every later report of that lint"""
+    from .p_parse import parent_map
+    n = 0
+    for label, q in lint_fn_closure(F):
+        g = F.fns.get(q)
+        if not g or "hir" not in g:
+            continue
+        body = g["hir"]["value"]
+        pm = parent_map(body)
+        params = {p_.get("name") for p_ in g["hir"]["params"]}
+        for fl in for_loops(body):
+            it = peel(fl["iter"])
+            while it.get("k") == "MethodCall" and it["name"] in ("iter", "into_iter", "rev", "clone") or it.get("k") in ("AddrOf",):
+                it = peel(it.get("recv") or it.get("e"))
+            if not (it.get("k") == "Path" and it.get("res_kind") == "Local" and it.get("res") in params and "Cfg" in (it.get("ty") or fl["iter"].get("ty") or "Cfg")):
+                continue
+            loop_node = None
+            for y in walk(fl["node"], pats=False):
+                if y.get("k") == "Loop":
+                    loop_node = y
+                    break
+            if loop_node is None:
+                continue
+            for br in walk(fl["body"], pats=False):
+                if br.get("k") != "Break" or (br.get("exp") or "").startswith("desugar"):
+                    continue
+                # does it leave the walk? labelled with the walk's label, or unlabelled with the walk as its innermost loop
+                x, inner = br, None
+                while id(x) in pm:
+                    x = pm[id(x)]
+                    if x.get("k") == "Loop":
+                        inner = x
+                        break
+                leaves = (br.get("label") is not None and br.get("label") == loop_node.get("label")) or (br.get("label") is None and inner is loop_node)
+                if not leaves:
+                    continue
+                n += 1
+                blk = pm.get(id(br))
+                while blk is not None and blk.get("k") != "Block":
+                    blk = pm.get(id(blk))
+                said = False
+                if blk is not None:
+                    for st in blk.get("stmts", []):
+                        if st is br or any(y is br for y in walk(st, pats=False)):
+                            break
+                        if any(m.get("k") == "MethodCall" and m["name"] in ("push", "push_real") for m in walk(st, pats=False)):
+                            said = True
+                        # or hands the diagnostic list to a helper that reports
+                        if any(m.get("k") in ("Call", "MethodCall") and any("DiagnosticManager" in (y.get("ty") or "") for a_ in m.get("args", []) for y in walk(a_, pats=False) if y.get("k") == "Path") for m in walk(st, pats=False)):
+                            said = True
+                key = f"{label}|exit#{n}"
+                if said:
+                    R.ok(key, detail="the walk is left after a diagnostic was pushed in the same block", where=loc(br))
+                else:
+                    R.bad(f"{label}|silent-exit", f"{label} leaves its walk over the graph without having reported anything in that block: the lint stops at the first node that takes this path, silently, and reports nothing for the rest of the program either", loc(br))
